@@ -15,7 +15,8 @@ exactly len long, for every len in 0..=2*dense+7*lane+tail and byte alignments o
 that rotate with len; the thorough tier adds equal-alignment, mixed and permuted placements), \
 placed as close to the trailing PROT_NONE page as the alignment allows (hi), right after the leading one (lo), \
 plus the exact end-flush and start-flush placements; canary bytes wherever a guard page is not adjacent. \
-Expected: no fault, canaries intact, inputs unchanged, returns within the watchdog (values arbitrary; non-zero \
+Expected: no fault, canaries intact, inputs unchanged, returns within the watchdog (values arbitrary, for floats \
+including NaN, infinities and -0.0 at random positions; non-zero \
 integer divisors; a panic from integer arithmetic is not a C07 matter). distinct = hash set over (routine, len, \
 placement of a/b/result, values); non-trivial = len > 0.";
 
@@ -29,7 +30,17 @@ fn one_target<T: Elem>(ctx: &mut Ctx, t: Target<T>) {
     let gen = |rng: &mut Rng| -> T {
         if int_div {
             vals::nonzero(rng, |r| vals::random_bits::<T>(r, false))
-        } else if T::FLOAT || t.r.op != crate::elem::Op::Cosine {
+        } else if T::FLOAT {
+            // values are arbitrary for this property: NaNs, infinities and signed zeros included (a loop whose progress
+            // depends on a comparison must still terminate)
+            match rng.below(12) {
+                0 => T::from_f64(f64::NAN),
+                1 => T::highest(),
+                2 => T::lowest(),
+                3 => T::from_f64(-0.0),
+                _ => vals::random_bits::<T>(rng, true),
+            }
+        } else if t.r.op != crate::elem::Op::Cosine {
             vals::random_bits::<T>(rng, false)
         } else {
             // small values keep integer cosine away from its (legitimate) division by zero
